@@ -868,7 +868,123 @@ func (p *pkgInfo) stmtLockCall(fi *funcInfo, s ast.Stmt) (mu, op string, deferre
 //   - the lock is released either by a deferred Unlock()/RUnlock() stated before any later table access or return, or
 //     explicitly: then every return after the Lock is immediately preceded by the Unlock in its block, nothing but a
 //     return follows an Unlock in its block, returned expressions do not touch table state, and the body ends released.
+// lockHelper recognises a method whose body is exactly
+//	recv.<mutex>.Lock()      (or RLock)
+//	return recv.<mutex>.Unlock   (or RUnlock; or a func literal that only calls it)
+// i.e. "take the lock, hand back the function that releases it" (used as  defer x.h()() ).
+func (p *pkgInfo) lockHelper(h *funcInfo) (mutex string, write bool, ok bool) {
+	if h == nil || h.recvName == "" || len(h.decl.Body.List) != 2 {
+		return "", false, false
+	}
+	mu, op, deferred := p.stmtLockCall(h, h.decl.Body.List[0])
+	if mu == "" || deferred || (op != "Lock" && op != "RLock") {
+		return "", false, false
+	}
+	want := map[string]string{"Lock": "Unlock", "RLock": "RUnlock"}[op]
+	ret, isRet := h.decl.Body.List[1].(*ast.ReturnStmt)
+	if !isRet || len(ret.Results) != 1 {
+		return "", false, false
+	}
+	isUnlockValue := func(e ast.Expr) bool { // recv.<mutex>.Unlock as a method value
+		sel, ok := e.(*ast.SelectorExpr)
+		if !ok || sel.Sel.Name != want {
+			return false
+		}
+		m, ok := sel.X.(*ast.SelectorExpr)
+		if !ok || m.Sel.Name != mu {
+			return false
+		}
+		r, ok := m.X.(*ast.Ident)
+		return ok && r.Name == h.recvName
+	}
+	switch r := ret.Results[0].(type) {
+	case *ast.SelectorExpr:
+		if isUnlockValue(r) {
+			return mu, op == "Lock", true
+		}
+	case *ast.FuncLit:
+		if len(r.Body.List) == 1 {
+			if es, ok := r.Body.List[0].(*ast.ExprStmt); ok {
+				if c, ok := es.X.(*ast.CallExpr); ok && len(c.Args) == 0 && isUnlockValue(c.Fun) {
+					return mu, op == "Lock", true
+				}
+			}
+		}
+	}
+	return "", false, false
+}
+
+// helperCall: is e a call  recv.h()  of a lock helper on the method's own receiver?
+func (p *pkgInfo) helperCall(fi *funcInfo, e ast.Expr) (mutex string, write bool, ok bool) {
+	c, isCall := e.(*ast.CallExpr)
+	if !isCall || len(c.Args) != 0 {
+		return "", false, false
+	}
+	sel, isSel := c.Fun.(*ast.SelectorExpr)
+	if !isSel {
+		return "", false, false
+	}
+	r, isId := sel.X.(*ast.Ident)
+	if !isId || r.Name != fi.recvName {
+		return "", false, false
+	}
+	return p.lockHelper(p.funcs[fi.recvType+"."+sel.Sel.Name])
+}
+
+// containsLock: does the node take a lock of a receiver mutex in a way this analysis does not follow?
+func (p *pkgInfo) lockish(fi *funcInfo, depth int) bool {
+	found := false
+	ast.Inspect(fi.decl.Body, func(n ast.Node) bool {
+		c, ok := n.(*ast.CallExpr)
+		if !ok || found {
+			return !found
+		}
+		if sel, ok := c.Fun.(*ast.SelectorExpr); ok {
+			if sel.Sel.Name == "Lock" || sel.Sel.Name == "RLock" {
+				if m, ok := sel.X.(*ast.SelectorExpr); ok && p.isSyncField(m.Sel.Name) {
+					found = true
+					return false
+				}
+			}
+			if depth > 0 {
+				for _, g := range p.byName[sel.Sel.Name] {
+					if g != fi && p.lockish(g, depth-1) {
+						found = true
+					}
+				}
+			}
+		}
+		if id, ok := c.Fun.(*ast.Ident); ok && depth > 0 {
+			if g := p.funcs[id.Name]; g != nil && g != fi && p.lockish(g, depth-1) {
+				found = true
+			}
+		}
+		return !found
+	})
+	return found
+}
+
+// unclear is set by bracket when a method is not recognised as bracketed but takes a lock through something the
+// analysis does not follow (as opposed to: positively seen to access table state outside the lock)
+var unclear = map[string]bool{}
+
 func (p *pkgInfo) bracket(fi *funcInfo) (mutex string, write bool, ok bool) {
+	mutex, write, ok = p.bracket1(fi)
+	if !ok {
+		direct := false
+		for _, s := range fi.decl.Body.List {
+			if mu, op, deferred := p.stmtLockCall(fi, s); mu != "" && !deferred && (op == "Lock" || op == "RLock") {
+				direct = true
+			}
+		}
+		if !direct && p.lockish(fi, 2) {
+			unclear[fi.key] = true
+		}
+	}
+	return
+}
+
+func (p *pkgInfo) bracket1(fi *funcInfo) (mutex string, write bool, ok bool) {
 	if fi.li == nil {
 		fi.li = p.locals(fi)
 	}
@@ -876,6 +992,25 @@ func (p *pkgInfo) bracket(fi *funcInfo) (mutex string, write bool, ok bool) {
 	lockAt := -1
 	var lockOp string
 	for i, s := range body {
+		// defer recv.h()()  with h a lock helper: acquire here, release deferred
+		if d, isDefer := s.(*ast.DeferStmt); isDefer && len(d.Call.Args) == 0 {
+			if mu, w, ok := p.helperCall(fi, d.Call.Fun); ok {
+				return mu, w, true
+			}
+		}
+		// unlock := recv.h() ... defer unlock()
+		if as, isAssign := s.(*ast.AssignStmt); isAssign && len(as.Lhs) == 1 && len(as.Rhs) == 1 {
+			if mu, w, ok := p.helperCall(fi, as.Rhs[0]); ok {
+				if id, isId := as.Lhs[0].(*ast.Ident); isId && i+1 < len(body) {
+					if d, isDefer := body[i+1].(*ast.DeferStmt); isDefer && len(d.Call.Args) == 0 {
+						if f, isF := d.Call.Fun.(*ast.Ident); isF && f.Name == id.Name {
+							return mu, w, true
+						}
+					}
+				}
+				return "", false, false
+			}
+		}
 		mu, op, deferred := p.stmtLockCall(fi, s)
 		if mu != "" && !deferred && (op == "Lock" || op == "RLock") {
 			lockAt, mutex, lockOp = i, mu, op
@@ -1043,6 +1178,7 @@ func main() {
 		reads, writes, alias  bool
 		calls                 []string
 		aliasDetail, mutexTxt string
+		unclear               bool
 	}
 	var facts []outFact
 	mutexOf := map[int]string{}
@@ -1137,6 +1273,7 @@ func main() {
 				of.bracket = fmt.Sprintf("(Some (%d, %v))", id, w)
 				mutexOf[id] = fi.recvType + "." + mu
 			}
+			of.unclear = unclear[fi.key]
 			for e := range fi.ext {
 				of.calls = append(of.calls, e)
 			}
@@ -1228,6 +1365,9 @@ func main() {
 		sep := ";"
 		if i == len(facts)-1 {
 			sep = ""
+		}
+		if f.unclear {
+			fmt.Fprintf(&sb, "  (* UNCLASSIFIED %s: takes a lock in a way the translator does not follow *)\n", f.name)
 		}
 		fmt.Fprintf(&sb, "  (* result may alias: %s *)\n  mkfact %d \"%s\" %s %v %v [%s] %v%s\n", f.aliasDetail, f.table, f.name, f.bracket, f.reads, f.writes,
 			strings.Join(calls, "; "), f.alias, sep)
